@@ -1,5 +1,5 @@
 """The nsync_mu / nsync_cv protocol-word model on top of nsa.symex: word classes, opaque callees, entry points + contexts."""
-from .symex import Engine, WordClass, Ptr, TOP, Record, is_expr
+from .symex import Engine, WordClass, Ptr, TOP, Record, is_expr, eval_tree
 from .report import AnalysisBroken
 from . import util
 
@@ -315,6 +315,10 @@ class MuEngine(Engine):
     @staticmethod
     def _waiter_new(eng, st, f, inst, args):
         p = Ptr('waiter:%s:%s' % (f.fn.name, inst.id), ())
+        # C19.R4: what the thread knows about its condition when it asks for a waiter record
+        cl = st.ghost.get(('cond_last',))
+        vals = sorted(set(int(bool(eval_tree(cl[2], d))) for d in st.S.get(cl[1], ()))) if is_expr(cl) else (None if cl is None else [int(bool(cl))] if isinstance(cl, int) else None)
+        eng.record(Record('waiter_new', inst, st, cond_vals=vals, entry=eng.entry_name), ('waiter_new', inst.fn.name, inst.id, st.stack(), repr(vals)))
         st.nn.add(p)
         f.regs[inst.id] = p
         f.idx += 1
